@@ -338,10 +338,26 @@ class Engine:
     def __init__(self, gvh, oracle):
         self.gvh, self.oracle = gvh, oracle
 
-    def go(self, hists, verbose=False):
+    def go(self, hists, verbose=False, tmo=12):
         lines = ["h%d %d ; %s" % (i, stride_for(ops), " ; ".join(ops)) for i, ops in enumerate(hists)]
-        rc, out, err = vlib.run_lines(self.gvh, ["hist"] + (["-v"] if verbose else []), lines, timeout=1800)
-        return rc, [parse_go(l) for l in out], err
+        # resilient: a case on which the implementation hangs (e.g. a cycle in a collision chain) or crashes the
+        # process is reported as '<id> HANG' / '<id> CRASH ..' and the remaining cases still run
+        res, hangs = [], 0
+        for c0 in range(0, len(lines), 40):
+            chunk = lines[c0:c0 + 40]
+            if hangs >= 3:
+                # enough evidence: do not spend the budget on more hanging cases
+                res += [("-", [("SKIPPED", "")])] * len(chunk)
+                continue
+            out = vlib.run_lines_resilient(self.gvh, ["hist"] + (["-v"] if verbose else []), chunk, per_case_timeout=tmo)
+            for l in out:
+                f = l.split(" ")
+                if len(f) >= 2 and f[1] in ("HANG", "CRASH"):
+                    hangs += 1
+                    res.append(("-", [(f[1], "")]))
+                else:
+                    res.append(parse_go(l))
+        return 0, res, ""
 
     def im(self, hists, gos, verbose=False):
         lines = ["h%d %s %s %d ; %s" % (i, "V" if verbose else "M", gos[i][0], stride_for(ops), " ; ".join(ops))
@@ -368,6 +384,8 @@ class Engine:
         rc, gos, _ = self.go([ops])
         if rc != 0 or not gos:
             return [(0, "harness crashed")]
+        if gos[0][1] and gos[0][1][0][0] in ("HANG", "CRASH"):
+            return [(0, "implementation " + gos[0][1][0][0])]
         rc2, sres, plans, _ = self.spec([ops], gos)
         if rc2 != 0 or not sres:
             return []
@@ -760,6 +778,18 @@ def evaluate(ck, eng, hists, label, first_violation_only=True, max_report=3):
             break
         hs, gout = gos[i]
         iout, inv = ims[i]
+        if gout and gout[0][0] == "SKIPPED":
+            ck.count("skipped-after-hangs")
+            continue
+        if gout and gout[0][0] in ("HANG", "CRASH"):
+            n_s += 1
+            if reported < max_report:
+                reported += 1
+                small = shrink(ops, lambda cand: (lambda g: bool(g) and bool(g[0][1]) and g[0][1][0][0] in ("HANG", "CRASH"))(eng.go([cand], tmo=6)[1]), budget=14)
+                ck.violation("the implementation %s on a table history (%s)" % ("does not terminate" if gout[0][0] == "HANG" else "crashes the process", label),
+                             {"kind": "Go!=S", "engine": "table", "history": " ; ".join(small), "original_history": " ; ".join(ops)[:6000],
+                              "failures": ["runtime.Table operation %s" % gout[0][0]], "theorems": ["C03_get_refines", "C03_inv_preserved_insert"]})
+            continue
         # ---- distribution
         for o in ops:
             ck.count("op:" + o[0])
